@@ -17,6 +17,7 @@ from .symx import Inconclusive, PathAbort
 
 ROOT = os.path.dirname(os.path.dirname(os.path.abspath(__file__)))
 REPO = os.environ.get('VERIF_REPO', '/repo')
+OUT = os.environ.get('VERIF_OUT', ROOT)      # evidence/ and replays/ go here (tools/matrix.sh redirects them)
 EXIT_OK, EXIT_VIOLATION, EXIT_HARNESS = 0, 1, 3
 
 
@@ -27,6 +28,37 @@ def ob(prop, harness, oid, max_paths=5000, wall=120, validate=1, expect=None, **
     """An obligation is data: (property module, harness name, JSON-able params)."""
     return {'prop': prop, 'harness': harness, 'oid': '%s/%s' % (prop, oid), 'params': params,
             'max_paths': max_paths, 'wall': wall, 'validate': validate, 'expect': expect}
+
+
+def make_twins(obs, picks):
+    """Vacuity guard: clone the first obligation whose id contains `sub` with a deliberately wrong oracle `twin`;
+    such an obligation MUST come back violated (with a model that replays), otherwise the check exits 3."""
+    out = []
+    for sub, twin in picks:
+        for o in obs:
+            if sub in o['oid'] and not o.get('twin'):
+                t = dict(o)
+                t['oid'] = o['oid'] + '  [twin:%s]' % twin
+                t['twin'] = twin
+                out.append(t)
+                break
+        else:
+            raise symx.HarnessError('no obligation matches twin pick %r' % sub)
+    return out
+
+
+def make_forkmode(obs, subs):
+    """Stub guard: the same obligation with Python's own min/max (forking) instead of the ITE stubs; same verdict required."""
+    out = []
+    for sub in subs:
+        for o in obs:
+            if sub in o['oid'] and not o.get('twin'):
+                t = dict(o)
+                t['oid'] = o['oid'] + '  [fork-mode]'
+                t['forkmode'] = True
+                out.append(t)
+                break
+    return out
 
 
 def prop_module(prop):
@@ -108,9 +140,12 @@ def decide(o):
            'verdict': 'holds', 'fail': [], 'paths': 0, 'decisions': 0, 'queries': 0, 'solver_s': 0.0,
            'aborted': {}, 'validated': 0, 'asserts': 0, 'ok_paths': 0, 'raised_paths': 0,
            'unconfirmed': []}
+    from . import refsem, refct
     try:
+        refsem.TWIN = refct.TWIN = o.get('twin')
         body = build_body(o)
-        symx.patch_rtamt()
+        symx.unpatch_rtamt()
+        symx.patch_rtamt(minmax=not o.get('forkmode'))
         seen = {}
         state = {'n': 0}
         expect = o.get('expect')
@@ -192,7 +227,12 @@ def decide(o):
         res['why'] = 'harness error: %s: %s\n%s' % (type(e).__name__, e, traceback.format_exc()[-1500:])
     finally:
         symx.CTX = None
+        refsem.TWIN = refct.TWIN = None
+        if o.get('forkmode'):
+            symx.unpatch_rtamt()
     res['wall_s'] = time.time() - t0
+    res['twin'] = o.get('twin')
+    res['forkmode'] = bool(o.get('forkmode'))
     return res
 
 
@@ -322,7 +362,7 @@ def _init_logging():
 
 def _replay_path(prop, oid, kind):
     h = hashlib.sha1((oid + '|' + kind).encode()).hexdigest()[:12]
-    d = os.path.join(ROOT, 'replays', prop)
+    d = os.path.join(OUT, 'replays', prop)
     os.makedirs(d, exist_ok=True)
     return os.path.join(d, h + '.json')
 
@@ -334,6 +374,11 @@ def finish(prop, tier, seed, mod, results, wall):
     n_known = 0
     n_inc = 0
     known_hit = {}
+    twins = [r for r in results if r.get('twin')]
+    results = [r for r in results if not r.get('twin')]
+    twins_bad = [r for r in twins if r['verdict'] != 'violated']
+    for r in twins_bad:
+        lines.append('INCONCLUSIVE property=%s vacuity twin NOT refuted (%s): %s' % (prop, r['verdict'], r['oid']))
     for r in results:
         expect = None
         if r['verdict'] == 'violated':
@@ -390,6 +435,8 @@ def finish(prop, tier, seed, mod, results, wall):
             'obligations_violated_known_finding': len([r for r in results if r['verdict'] == 'violated'
                                                        and all('known' in f for f in r['fail'])]),
             'obligations_inconclusive': n_inc,
+            'vacuity_twins_refuted': '%d of %d (deliberately wrong oracles that must be refuted with a replaying model)' % (len(twins) - len(twins_bad), len(twins)),
+            'fork_mode_twins_agree': len([r for r in results if r.get('forkmode') and r['verdict'] == 'holds']),
             'obligations_outside_claim_arithmetic_domain': len([r for r in results if r['verdict'] == 'outside']),
             'assertions_decided': tot('asserts'),
             'solver_queries': tot('queries'), 'solver_time_s': round(tot('solver_s'), 2),
@@ -407,8 +454,8 @@ def finish(prop, tier, seed, mod, results, wall):
             'min/max/float/math are rebound in rtamt.* namespaces to term-building stubs (validated concolically)'],
         'wall_s': round(wall, 2), 'violations': n_viol, 'known_findings': n_known,
     }
-    os.makedirs(os.path.join(ROOT, 'evidence'), exist_ok=True)
-    json.dump(ev, open(os.path.join(ROOT, 'evidence', prop + '.json'), 'w'), indent=1, default=str)
+    os.makedirs(os.path.join(OUT, 'evidence'), exist_ok=True)
+    json.dump(ev, open(os.path.join(OUT, 'evidence', prop + '.json'), 'w'), indent=1, default=str)
     for l in lines:
         print(l)
     print('%s tier=%s seed=%d: %d obligations, %d hold, %d violated (%d known-finding hits, %d new), %d inconclusive; '
@@ -417,7 +464,7 @@ def finish(prop, tier, seed, mod, results, wall):
              n_known, n_viol, n_inc, tot('paths'), tot('queries'), tot('solver_s'), wall))
     if n_viol:
         return EXIT_VIOLATION
-    if n_inc or not holds:
+    if n_inc or not holds or twins_bad:
         return EXIT_HARNESS
     return EXIT_OK
 
